@@ -116,6 +116,28 @@ Definition tcp_fail (wr : nat -> wres) (k : nat) : bool := negb (snd (xmpp_ping 
 Definition wire (tr : list act) : str :=
   flat_map (fun a => if is_ping a then ping_data else []) tr.
 
+(* ---- XMPPTransport.Close: write the closing tag (result ignored), wait for the peer's
+   closing tag or ConnectTimeout, then close the connection in every case ---- *)
+Inductive cact :=
+| CWrite (data : str)    (* conn.Write / readWriter.Write *)
+| CConnClose.            (* conn.Close() *)
+
+(* "</stream:stream>" *)
+Definition stream_close_data : str :=
+  [60; 47; 115; 116; 114; 101; 97; 109; 58; 115; 116; 114; 101; 97; 109; 62]%N.
+
+Definition xmpp_close (r : wres) : list cact := [CWrite stream_close_data; CConnClose].
+
+(* what the loop does to the connection underneath the TCP transport; [cr] is the result
+   of the closing tag's write *)
+Definition conn_trace (cr : wres) (tr : list act) : list cact :=
+  flat_map (fun a => match a with
+                     | APingOk | APingFail => [CWrite (fst (xmpp_ping (WOk 1)))]
+                     | AClose => xmpp_close cr
+                     | _ => []
+                     end) tr.
+Definition is_connclose (c : cact) : bool := match c with CConnClose => true | _ => false end.
+
 (* ---- environment level: where schedules come from ----
    ticker.C has one slot (a fire while a tick is pending is dropped); quit is
    closed at most once; a select with nothing ready blocks (no step), with one
